@@ -28,7 +28,7 @@ def _work(job):
                 idx += 1
                 lose = devices[idx % len(devices)] if (lose_every and idx % lose_every == 0) else None
                 rec, desc = crash.experiment(g, "any,*,%d,%s" % (k, kind), flags=("-E",), lose=lose, seed=seed,
-                                             restore=(idx % 3 == 1))
+                                             restore=(idx % 3 == 1 or pending == "deletes"))
                 out.append(_pack(rec, g.steps + desc + ["killed at call %d/%d %s %s" % (k, n, kind, calls[k - 1])],
                                  seed * 10000 + idx, "kill-%s-%s" % (kind, pending), confkw))
         for j in range(sigint):
@@ -93,6 +93,7 @@ def run(tier):
         jobs = [(s0 + 1, dict(nd=2, np=2, copies=2), "mixed", ("killa", "killb", "short"), 3, 3, 3, 2),
                 (s0 + 2, dict(nd=3, np=1, copies=3, splits=[2]), "adds", ("killa", "short"), 3, 2, 0, 1),
                 (s0 + 5, dict(nd=2, np=2, copies=2, splits=[1, 3]), "holes", ("killa",), 1, 3, 0, 0),
+                (s0 + 6, dict(nd=2, np=1, copies=2), "deletes", ("killa",), 1, 4, 0, 0),
                 (s0 + 3, dict(nd=2, np=3, copies=1), "mixed", ("killa", "killb"), 3, 4, 4, 1),
                 (s0 + 4, dict(nd=4, np=2, copies=2), "adds", ("killa",), 1, 3, 5, 1)]
     else:
@@ -101,8 +102,8 @@ def run(tier):
                   dict(nd=1, np=1, copies=2), dict(nd=3, np=6, copies=2), dict(nd=2, np=2, copies=2, splits=[1, 3]),
                   dict(nd=3, np=2, copies=2, hash_size=8)]
         for i, sh in enumerate(shapes):
-            for pending in ("adds", "mixed", "holes"):
-                jobs.append((s0 + 10 + 3 * i + ("adds", "mixed", "holes").index(pending), sh, pending, ("killa", "killb", "short"), 1, 2, 1, 4))
+            for pending in ("adds", "mixed", "holes", "deletes"):
+                jobs.append((s0 + 10 + 4 * i + ("adds", "mixed", "holes", "deletes").index(pending), sh, pending, ("killa", "killb", "short"), 1, 2, 1, 4))
     with multiprocessing.Pool(min(8, len(jobs))) as pool:
         res = pool.map(_work, jobs, chunksize=1)
     scs = []
